@@ -412,3 +412,28 @@ Proof.
   intros x Hx. apply extend_wf_op; [exact Hx|].
   exact (proj2 (wf_op_comp_inv _ _ (copy_nodes_wf_op env r (copy_nodes env ns)))).
 Qed.
+
+(* ------------------------------------------------------------------ apply_modifiers *)
+(* replacing the operations of nodes keeps well-formedness, which only looks at parent pointers and links *)
+Lemma wf_nodes_map_ops (g : node -> node) ns :
+  (forall n, n_parent (g n) = n_parent n /\ n_link (g n) = n_link n) -> wf_nodes ns -> wf_nodes (map g ns).
+Proof.
+  intros Hg [W L]. split.
+  - unfold parents in *. rewrite map_map. rewrite (map_ext _ n_parent); [exact W|]. intros n. exact (proj1 (Hg n)).
+  - intros i n' E. rewrite nth_error_map in E. destruct (nth_error ns i) as [n|] eqn:En; [|discriminate].
+    simpl in E. inversion E; subst. specialize (L _ _ En). unfold link_ok in *.
+    destruct (Hg n) as [-> ->]. exact L.
+Qed.
+
+Theorem apply_mods_fuel_wf_op env : forall fuel r r' ns,
+  wf_op (OComp r ns) -> wf_op (OComp r (apply_mods_fuel fuel env r' ns)).
+Proof.
+  induction fuel as [|f IH]; intros r r' ns W; [exact W|]. cbn [apply_mods_fuel].
+  pose proof (repeat_nodes_wf_op env r ns r' W) as WR. apply wf_op_comp_inv in WR as [WN WF]. constructor.
+  - apply wf_nodes_map_ops; [|exact WN]. intros [p l [lf | r0 sub]]; split; reflexivity.
+  - apply Forall_map. rewrite Forall_forall in *. intros [p l [lf | r0 sub]] Hn; simpl; [constructor|].
+    specialize (WF _ Hn). simpl in WF. apply (wf_op_reps r0). apply IH. exact WF.
+Qed.
+
+Corollary apply_modifiers_wf_op env r reps ns : wf_op (OComp r ns) -> wf_op (OComp r (apply_modifiers env reps ns)).
+Proof. apply apply_mods_fuel_wf_op. Qed.
